@@ -377,3 +377,95 @@ package generic
 //@   ensures fail: err != nil ==> self.l == old(self.l) && samerg(self.v, old(self.v)) && offset(self.v) == old(offset(self.v))
 //@   ensures valid: windowif(self.t != thrift.ERROR, self.v, self.l)
 //@   modifies *self, bytes(self.v, self.l)
+
+// ---- descriptor-carrying API (Value) ------------------------------------------------------------------------
+//@ typeinv Value as x = windowif(x.t != thrift.ERROR, x.v, x.l) && windowif(x.t == thrift.ERROR && x.et != 1 && x.v != nil, x.v, 40)
+//@ typeinv *Value as x = x != nil && windowif(x.t != thrift.ERROR, x.v, x.l)
+
+// searchFieldName: like searchFieldId, for the field whose descriptor is f.
+//@ spec searchFieldName
+//@   props C01 C06 C04 C12
+//@   requires f != nil
+//@   ensures mono: old(p.Read) <= p.Read
+//@   ensures errtype: err != nil ==> dyntype(err, Node)
+//@   ensures range: 0 <= start && start <= p.Read
+//@   ensures errtt: err != nil ==> tt == 0 || tt == thrift.STRUCT
+//@   ensures found: err == nil ==> start == p.Read && 3 <= start && tt == thrift.Type(p.Buf[start-3]) && thrift.be16(p.Buf, start-2) == uint16(f.id)
+//@   ensures first: err == nil ==> start == ffind(p.Buf, old(p.Read), f.id)
+//@   ensures absent: err != nil && tt == thrift.STRUCT ==> ffind(p.Buf, old(p.Read), f.id) == -1
+//@   ensures absent_pos: err != nil && tt == thrift.STRUCT ==> start == old(p.Read)
+//@   modifies p.Read
+//@   loop 1
+//@     invariant mono: old(p.Read) <= p.Read
+//@     invariant scan: ffind(p.Buf, old(p.Read), f.id) == ffind(p.Buf, p.Read, f.id)
+//@     unfold ffind(p.Buf, p.Read, f.id)
+//@     decreases len(p.Buf) - p.Read
+
+//@ spec (Value).slice
+//@   props C01 C06 C12
+//@   requires span: self.t != thrift.ERROR && 0 <= s && s <= e && e <= self.l && desc != nil
+//@   requires schema: ((desc.typ == thrift.LIST || desc.typ == thrift.SET) ==> desc.elem != nil) && (desc.typ == thrift.MAP ==> desc.elem != nil && desc.key != nil)
+//@   ensures win: r0.t == desc.typ && r0.l == e - s && samerg(r0.v, self.v) && offset(r0.v) == offset(self.v) + s && r0.Desc == desc
+//@   ensures valid: windowif(true, r0.v, r0.l)
+
+// Value.GetByPath: never panics — neither on arbitrary bytes nor on a path that does not fit the descriptor;
+// a non-error result is a window inside the receiver. ASSUMED (callsite clauses): the schema is well-formed
+// (a field descriptor has a type descriptor; a LIST/SET/MAP descriptor that has an element descriptor at all
+// has one whose own LIST/SET/MAP element descriptors exist — only needed for the final slice).
+//@ spec (Value).GetByPath
+//@   props C01 C06 C12
+//@   requires live: self.t != thrift.ERROR
+//@   callsite (*FieldDescriptor).Type assumes schema: r0 != nil
+//@   callsite (Value).slice assumes schema: ((a3.typ == thrift.LIST || a3.typ == thrift.SET) ==> a3.elem != nil) && (a3.typ == thrift.MAP ==> a3.elem != nil && a3.key != nil)
+//@   ensures inside: r0.t != thrift.ERROR && len(pathes) > 0 ==> samerg(r0.v, self.v) && offset(r0.v) >= offset(self.v) && \
+//@       offset(r0.v) + r0.l <= offset(self.v) + self.l && r0.l >= 0
+//@   ensures valid: windowif(r0.t != thrift.ERROR, r0.v, r0.l)
+//@   loop 1
+//@     invariant buf: samerg(p.Buf, self.v) && offset(p.Buf) == offset(self.v) && len(p.Buf) == self.l && self.t != thrift.ERROR
+//@     invariant cur: 0 <= p.Read && p.Read <= len(p.Buf) && 0 <= start && start <= p.Read
+
+// ---- scalar casts: the value is the big-endian decoding selected by the node's type ---------------------------
+// Precondition `whole`: the node holds a complete value of its type (what every node cut by this package's own
+// search/iterator functions satisfies: their spans are tsz-exact); a hand-made short node is the caller's error.
+//@ pure nbuf(n Node) []byte = bytes(n.v, n.l)
+//@ pure whole(n Node) bool = n.l >= thrift.tmin(n.t) && (n.t != thrift.STRING || (thrift.strsz(nbuf(n), 0) >= 0 && 4 + int(thrift.strsz(nbuf(n), 0)) <= n.l))
+
+//@ spec (Node).int
+//@   props C01 C06 C12
+//@   requires live: self.t != thrift.ERROR && whole(self)
+//@   ensures i08: self.t == thrift.I08 ==> r1 == nil && r0 == zx(byteat(self.v, 0))
+//@   ensures i16: self.t == thrift.I16 ==> r1 == nil && r0 == sx(int16(thrift.be16(nbuf(self), 0)))
+//@   ensures i32: self.t == thrift.I32 ==> r1 == nil && r0 == sx(int32(thrift.be32(nbuf(self), 0)))
+//@   ensures i64: self.t == thrift.I64 ==> r1 == nil && r0 == int(thrift.be64(nbuf(self), 0))
+//@   ensures other: self.t != thrift.I08 && self.t != thrift.I16 && self.t != thrift.I32 && self.t != thrift.I64 ==> r1 != nil && r0 == 0
+
+//@ spec (Node).bool
+//@   props C01 C06 C12
+//@   requires live: self.t != thrift.ERROR && whole(self)
+//@   ensures ok: self.t == thrift.BOOL ==> r1 == nil && (r0 <==> byteat(self.v, 0) == 1)
+//@   ensures other: self.t != thrift.BOOL ==> r1 != nil && !r0
+
+//@ spec (Node).byte
+//@   props C01 C06 C12
+//@   requires live: self.t != thrift.ERROR && whole(self)
+//@   ensures ok: self.t == thrift.BYTE ==> r1 == nil && r0 == byteat(self.v, 0)
+//@   ensures other: self.t != thrift.BYTE ==> r1 != nil && r0 == 0
+
+//@ spec (Node).float64
+//@   props C01 C06 C12
+//@   requires live: self.t != thrift.ERROR && whole(self)
+//@   ensures ok: self.t == thrift.DOUBLE ==> r1 == nil && bits(r0) == thrift.be64(nbuf(self), 0)
+//@   ensures other: self.t != thrift.DOUBLE ==> r1 != nil
+
+//@ spec (Node).string
+//@   props C01 C06 C12
+//@   requires live: self.t != thrift.ERROR && whole(self)
+//@   ensures ok: self.t == thrift.STRING ==> r1 == nil && len(r0) == int(thrift.strsz(nbuf(self), 0))
+//@   ensures bytes: self.t == thrift.STRING ==> forall i :: 0 <= i && i < len(r0) ==> r0[i] == byteat(self.v, 4 + i)
+//@   ensures other: self.t != thrift.STRING ==> r1 != nil && len(r0) == 0
+
+//@ spec (Node).binary
+//@   props C01 C06 C12
+//@   requires live: self.t != thrift.ERROR && whole(self)
+//@   ensures ok: self.t == thrift.STRING ==> r1 == nil && len(r0) == int(thrift.strsz(nbuf(self), 0)) && samerg(r0, self.v) && offset(r0) == offset(self.v) + 4
+//@   ensures other: self.t != thrift.STRING ==> r1 != nil && len(r0) == 0
